@@ -144,6 +144,13 @@ pub enum Pred {
     Gt(usize),
     /// tuples only: `x[0] == universe[k][0]`
     FstEq(usize),
+    /// `x == universe[k]`, written through other library calls inside the callback:
+    /// `list.get([universe[k]], 0) == Maybe.Just x` (re-entrancy of the runtime library)
+    EqViaGet(usize),
+    /// `x != universe[k]` through `filter([universe[k]], pu y -> y == x) == []`
+    NeViaFilter(usize),
+    /// `x != universe[k]` through `list.get([universe[k]], 0) != Maybe.Just x`
+    NeViaGet(usize),
 }
 
 #[derive(Clone, Debug, PartialEq, Eq, Serialize, Deserialize)]
